@@ -304,7 +304,9 @@ fn main() {
             r.ok_or("write pending")?.map_err(|e| e.to_string())
         };
         // reads one item by route `route`; returns the serial found (if the item carries one)
-        let read = |it: It, route: u8, rd: &mut &[u8]| -> Result<Option<u32>, String> {
+        fn read_item<R: tokio::io::AsyncRead + Unpin>(it: It, route: u8, rd: &mut R) -> Result<Option<u32>, String> {
+            use futures_util::FutureExt;
+            use rpki::rtr::pdu;
             macro_rules! conc { ($t:ty, $get:expr) => {{
                 let v: $t = match route {
                     0 => <$t>::read(rd).now_or_never().ok_or("read pending")?.map_err(|e| format!("read: {e}"))?,
@@ -338,7 +340,8 @@ fn main() {
                     Ok(None)
                 }
             }
-        };
+        }
+        let read = |it: It, route: u8, rd: &mut &[u8]| -> Result<Option<u32>, String> { read_item(it, route, rd) };
         let routes = |it: It| -> u8 { if matches!(it, It::Err(..)) { 9 } else { 3 } };
         let mut seqs: Vec<Vec<It>> = Vec::new();
         for a in alphabet { for b in alphabet { seqs.push(vec![a, b]); for c in alphabet { seqs.push(vec![a, b, c]) } } }
@@ -371,6 +374,53 @@ fn main() {
         sp.outcomes_n("sequences-of-2", (alphabet.len() * alphabet.len()) as u64); sp.outcomes_n("sequences-of-3", (alphabet.len().pow(3)) as u64);
         sp.sample_str(|| "[Err(12, 5), Eod1, Sn] read by try_read(Ipv4Prefix)+skip_payload, Header::read+read_payload, read".into());
         sp.done(true, "all sequences of length 2 and 3 x 5 serial rotations x all combinations of read routes");
+
+        // fragmentation: the same PDUs arriving in pieces
+        struct Chunked { data: Vec<u8>, cuts: Vec<usize>, pos: usize }
+        impl tokio::io::AsyncRead for Chunked {
+            fn poll_read(mut self: std::pin::Pin<&mut Self>, _cx: &mut std::task::Context<'_>, buf: &mut tokio::io::ReadBuf<'_>) -> std::task::Poll<std::io::Result<()>> {
+                let end = self.cuts.iter().copied().find(|c| *c > self.pos).unwrap_or(self.data.len());
+                let n = buf.remaining().min(end - self.pos);
+                let (a, b) = (self.pos, self.pos + n);
+                buf.put_slice(&self.data[a..b]);
+                self.pos = b;
+                std::task::Poll::Ready(Ok(()))
+            }
+        }
+        let sp2 = ctx.space("wire.fragments",
+            "every single PDU of the alphabet and every sequence of two, with serials from the pool, delivered by a reader that hands out the octets in pieces: one cut at EVERY octet position of the stream and, for single PDUs, every pair of cut positions (so a boundary falls inside the header, between header and payload, and inside the 4-octet serial), read by every read route; oracle as in wire.streams: every serial comes back as written and the reader is empty exactly after the last PDU; non-trivial = (stream, cuts) with a cut strictly inside a PDU");
+        let mut streams: Vec<Vec<It>> = alphabet.iter().map(|a| vec![*a]).collect();
+        for a in alphabet { for b in alphabet { streams.push(vec![a, b]) } }
+        streams.par_iter().for_each(|seq| {
+            for rot in 0..serial_pool.len() {
+                let xs: Vec<u32> = (0..seq.len()).map(|i| serial_pool[(rot + i) % serial_pool.len()]).collect();
+                let mut buf = Vec::new();
+                if let Err(e) = guard(|| seq.iter().zip(&xs).try_for_each(|(it, x)| write(*it, *x, &mut buf))).and_then(|r| r) { ctx.fail("C16.wire.fragments", format!("{seq:?} serials={xs:x?}"), format!("write: {e}")); continue }
+                let n = buf.len();
+                let mut cutsets: Vec<Vec<usize>> = (1..n).map(|c| vec![c]).collect();
+                if seq.len() == 1 { for a in 1..n { for b in a + 1..n { cutsets.push(vec![a, b]) } } }
+                let nr: Vec<u8> = seq.iter().map(|it| routes(*it)).collect();
+                let total: u32 = nr.iter().map(|n| *n as u32).product();
+                for cuts in &cutsets { for combo in 0..total {
+                    let mut c = combo; let rs: Vec<u8> = nr.iter().map(|n| { let r = (c % *n as u32) as u8; c /= *n as u32; r }).collect();
+                    sp2.eval(); sp2.nontrivial(1);
+                    let wit = || format!("{seq:?} serials={xs:x?} routes={rs:?} cuts={cuts:?} of {n} octets");
+                    let r = guard(|| -> Result<(), String> {
+                        let mut rd = Chunked { data: buf.clone(), cuts: cuts.clone(), pos: 0 };
+                        for (k, it) in seq.iter().enumerate() {
+                            let got = read_item(*it, rs[k], &mut rd).map_err(|e| format!("PDU #{k}: {e}"))?;
+                            if let Some(g) = got { if g != xs[k] { return Err(format!("PDU #{k}: serial written {:#x}, read {g:#x}", xs[k])) } }
+                        }
+                        if rd.pos != rd.data.len() { return Err(format!("{} octets left in the reader after the last PDU", rd.data.len() - rd.pos)) }
+                        Ok(())
+                    });
+                    match r { Ok(Ok(())) => {}, Ok(Err(d)) => ctx.fail("C16.wire.fragments", wit(), d), Err(p) => ctx.fail("C16.wire.fragments", wit(), p) }
+                }}
+            }
+        });
+        sp2.outcomes_n("single-pdu-streams", alphabet.len() as u64); sp2.outcomes_n("two-pdu-streams", (alphabet.len() * alphabet.len()) as u64);
+        sp2.sample_str(|| "[Eod1] serials=[80000000] routes=[2] cuts=[8, 10] of 24 octets: header, then two octets of the serial, then the rest".into());
+        sp2.done(true, "all streams of 1 and 2 PDUs x 5 serial rotations x every cut position (pairs for single PDUs) x all combinations of read routes");
     }
 
     ctx.finish();
